@@ -205,6 +205,20 @@ def step (line : String) : String :=
       if t.1.toNat < lo then cxs (⟨0.0, 0.0⟩ : Cx Float)
       else cxs (frdC (α := Float) st 3 (t.1 * (t.1 + 1) + t.2)))
     String.intercalate " " out
+  | "methDloop" :: L :: ellmin :: N :: dflt :: rest =>
+    -- the GENERATED loop of `Wigner.D` over N rotors: rest = 4N rotor components, then 2N table entries (re, im, imsqrt) for
+    -- `np.sqrt(z).imag`.  Rows of the output are the arrays 7, 8, …; one poisoned memory, one workspace threaded through.
+    let L := L.toNat!; let N := N.toNat!
+    let Rv : Array Float := (rest.take (4*N)).toArray.map bf
+    let tb : Array Float := (rest.drop (4*N)).toArray.map bf
+    let table : List (Float × Float × Float) := (List.range (2*N)).map (fun (i : Nat) => (tb.getD (3*i) 0.0, tb.getD (3*i+1) 0.0, tb.getD (3*i+2) 0.0))
+    let (a, b, d, g, h) := genTables L
+    let st0 : HFMem Float := { map := ∅, dflt := bf dflt }
+    let st := Gen.Wigner_D_loop (α := Float) (N : Int) (fun i j => Rv.getD (4 * i.toNat + j.toNat) 0.0) 6 g h L L a b d 0 1 2
+      (fun i => 7 + i.toNat) 4 (imsqrtTable table) 5 ellmin.toInt! st0
+    let n := (Gen.WignerDsize ellmin.toInt! L L).toNat
+    String.intercalate " " ((List.range N).flatMap (fun (r : Nat) =>
+      (List.range n).map (fun (i : Nat) => cxs (frdC (α := Float) st (7 + r) ((i : Nat) : Int)))))
   | ["dfull", L, ellmin, c, s, dflt] =>
     let L := L.toNat!
     let st := runHF L L (bf c) (bf s) (bf dflt)
